@@ -281,7 +281,7 @@ def plan_items(scn_specs, chunk=24):
         if ref.outcome != "ok":
             continue
         chs = children({}, ref, spec["menu"], spec.get("fault_kinds", ()))
-        size = chunk if spec["bound"] == 1 else max(1, chunk // 8)
+        size = chunk if spec["bound"] == 1 else (max(1, chunk // 8) if spec["bound"] == 2 else 1)
         for i in range(0, len(chs), size):
             items.append(dict(base, schedules=chs[i : i + size], depth=1, bound=spec["bound"]))
     return items
